@@ -9,6 +9,11 @@ and "`Hook.Run` turned the binding context into JSON" (`taskHandleHookRun` waits
 holds a pointer to a `v1.ConversionReview` envelope whose `Request` field points to the request, and
 the request's `Objects` are read through it only when the hook is run.
 
+The chain search itself (`FindConversionChain`) runs under the mutex of `ChainStorage` (repaired:
+the path cache was filled by concurrent requests without a lock — Go runtime fatal error), i.e. the
+searches are serialised: each request finds the cache as some history of earlier queries left it,
+which is what `chain_sound` / `chain_complete` quantify over.
+
 Small-step model of the inner loop `for _, convRule := range convPath` of `conversionEventHandler`
 (the big-step form is `Conversion.runPath`) for any number of requests sharing one heap of
 envelopes. `ConversionBindingsController.HandleEvent` allocates a new envelope for every step
